@@ -43,6 +43,7 @@ type Scenario struct {
 	GrowBy            int  // > 0: the last interceptor also pads the value by this many bytes (a message may outgrow MaxMessageBytes)
 	SyncCloseMid      bool // sync producer: Close is called while the calls of the last burst (one goroutine per message) are pending
 	NilIcept          bool // the interceptor list has a nil slot after its first entry (a disabled interceptor)
+	Recycle           int  // the last Recycle messages are submitted by re-using the structs of earlier messages that already have their outcome
 	ReuseConfig       bool // after the producer has closed, a second producer is built from the SAME Config and sends two messages
 	Msgs              []Msg
 	Faults            map[int]sarama.VerifSimFault // by global produce request number
@@ -361,6 +362,20 @@ func Gen(seed uint64, focus string) *Scenario {
 			sc.Acks = sarama.WaitForLocal
 		}
 	}
+	// (decided by a generator of its own so that the scenarios of the main stream stay what they were)
+	if rr := hlib.NewRand(seed ^ 0x72656379636c65); focus != "C02" && !sc.Sync && sc.CloseAfter < 0 && len(sc.Msgs) >= 4 && rr.Chance(1, 5) {
+		// applications pool their message structs: the last few messages travel in structs of earlier messages that
+		// already got their outcome, with new (mostly larger) contents
+		sc.Recycle = rr.Range(1, 3)
+		for k := 0; k < sc.Recycle; k++ {
+			m := &sc.Msgs[len(sc.Msgs)-1-k]
+			m.KeyLen = rr.Pick(3, 8, 20)
+			m.ValLen = rr.Pick(40, 120, 300)
+			if sc.MaxMsgByte < 1000000 && rr.Bool() {
+				m.ValLen = sc.MaxMsgByte + rr.Range(1, 60) // must be refused whatever the struct carried before
+			}
+		}
+	}
 	return sc
 }
 
@@ -377,7 +392,7 @@ func (sc *Scenario) String() string {
 	}
 	return fmt.Sprintf("seed=%d focus=%s brokers=%d parts=%d retry=%d flush=%d/%d/%dms max=%d maxbytes=%d idem=%v acks=%d ver=%s buf=%d codec=%d icepts=%d/%d msgs=%d closeAfter=%d faults=[%s] sync=%v",
 		sc.Seed, sc.Focus, sc.Brokers, sc.Partitions, sc.RetryMax, sc.FlushMsgs, sc.FlushBytes, sc.FlushFreq, sc.MaxMsgs, sc.MaxMsgByte,
-		sc.Idempotent, sc.Acks, sc.Version, sc.ChanBuf, sc.Codec, sc.Icepts, sc.PanicIcept, len(sc.Msgs), sc.CloseAfter, strings.Join(fs, ","), sc.Sync) + fmt.Sprintf(" latency=%dms growBy=%d", sc.LatencyMs, sc.GrowBy)
+		sc.Idempotent, sc.Acks, sc.Version, sc.ChanBuf, sc.Codec, sc.Icepts, sc.PanicIcept, len(sc.Msgs), sc.CloseAfter, strings.Join(fs, ","), sc.Sync) + fmt.Sprintf(" latency=%dms growBy=%d recycle=%d", sc.LatencyMs, sc.GrowBy, sc.Recycle)
 }
 
 func payload(id, n int) []byte {
@@ -667,6 +682,9 @@ func runAsync(sc *Scenario, cfg *sarama.Config, sim *sarama.VerifSim, msgs []*sa
 	if sc.CloseAfter >= 0 && sc.CloseAfter < limit {
 		limit = sc.CloseAfter
 	}
+	if sc.Recycle > 0 {
+		limit = len(msgs) - sc.Recycle
+	}
 	i := 0
 	func() {
 		defer func() {
@@ -699,7 +717,7 @@ func runAsync(sc *Scenario, cfg *sarama.Config, sim *sarama.VerifSim, msgs []*sa
 	if sc.CloseAtEvent == 0 {
 		atomic.StoreInt32(&res.closeNow, 1)
 	}
-	if sc.CloseAfter < 0 {
+	waitAll := func() {
 		// wait until every submitted message has an outcome (bounded)
 		deadline := time.Now().Add(8 * time.Second)
 		for time.Now().Before(deadline) {
@@ -710,6 +728,37 @@ func runAsync(sc *Scenario, cfg *sarama.Config, sim *sarama.VerifSim, msgs []*sa
 				break
 			}
 			time.Sleep(time.Millisecond)
+		}
+	}
+	if sc.CloseAfter < 0 {
+		waitAll()
+	}
+	if sc.Recycle > 0 && res.SendPanic == "" && atomic.LoadInt32(&res.closeNow) == 0 {
+		mu.Lock()
+		all := len(res.Outcomes) >= len(res.Submitted)
+		mu.Unlock()
+		if all {
+			// every earlier message has its outcome: its struct is the application's again
+			func() {
+				defer func() {
+					if r := recover(); r != nil {
+						res.SendPanic = fmt.Sprint(r)
+					}
+				}()
+				for k := 0; k < sc.Recycle; k++ {
+					src, tgt := msgs[k], msgs[limit+k]
+					src.Topic, src.Key, src.Value, src.Headers = tgt.Topic, tgt.Key, tgt.Value, tgt.Headers
+					src.Metadata, src.Partition, src.Timestamp, src.Offset = tgt.Metadata, tgt.Partition, tgt.Timestamp, 0
+					select {
+					case p.Input() <- src:
+						res.Submitted = append(res.Submitted, sc.Msgs[limit+k].ID)
+					case <-time.After(5 * time.Second):
+						res.SendPanic = "input blocked for 5s"
+						return
+					}
+				}
+			}()
+			waitAll()
 		}
 	}
 	p.AsyncClose()
@@ -1136,6 +1185,11 @@ func Check(res *Result) []Fail {
 					holder = fmt.Sprintf("message %d", idOfRecord(log[o.Offset]))
 				}
 				sig := "C04:success-offset-not-the-message"
+				if sc.Idempotent {
+					// the broker answered the batch as a duplicate of a cached (sequence, length) that belongs to other
+					// records (see the C05 findings): the base offset it names is theirs
+					sig = "C04:success-offset-not-the-message-idempotent"
+				}
 				if copies[o.ID] == 0 {
 					sig = "C04:success-but-not-in-log"
 					if sc.Idempotent {
